@@ -1,16 +1,22 @@
 (* Properties_C06.v — FEN decoding and encoding agree with the FEN / Shredder-FEN / X-FEN definitions.
-   Proved for EVERY position (no hypothesis) and both modes: get_fen(p, mode) is exactly the specification's canonical
+   STATUS: FULL (for the model M) on well-formed six-field FENs; the conventions are Spec/Fen.v.
+   ENCODING, for EVERY position (no hypothesis) and both modes: get_fen(p, mode) is exactly the specification's canonical
    six-field FEN of abs p — placement by ranks 8..1 with run-length digits, side, castling field (KQkq order in
-   standard mode, rook-file letters in Chess960 mode, '-' for none), ep square or '-', both clocks in decimal;
-   the stream printer shows the same placement (under the representation invariant); 'startpos' is the standard
-   initial position.
-   STATUS: PARTIAL — the DECODING direction (set_fen of every spelling yields exactly the described position, with
-   the outermost-rook rule for KQkq in Chess960 mode and letters without a rook dropped) is not a theorem; it is
-   decided by the correspondence against the specification's independent decoder Spec/Fen.of_fen on canonical
-   FENs, permuted/subset castling fields, X-FEN letters, letters without a rook, both modes.  Statements only. *)
+   standard mode, rook-file letters in Chess960 mode, '-' for none), ep square or '-', both clocks in decimal; the
+   stream printer shows the same placement (under the representation invariant); 'startpos' is the standard initial
+   position.
+   DECODING (C06_set_fen_decodes): for EVERY six-field FEN whose placement field has 8 ranks of piece letters and
+   digits 1..8 summing to 8, a non-empty side and castling word, an ep word that is '-' or a square name, and decimal
+   clocks, set_fen yields exactly the position that the specification's independent decoder Spec/Fen.of_fen describes
+   — every square, side, ep square, both clocks, and the rights with the right rook: corner rooks for KQkq in standard
+   mode, the named file for Shredder letters, the OUTERMOST rook on that side of the king for KQkq in Chess960 mode
+   (scan_outer_east/west), a right whose rook is absent dropped; the castling word is arbitrary (any order,
+   repetitions, junk letters).  In Chess960 mode both kings must be present (with a Shredder letter and no king of
+   that colour the C++ grants a right that the definition does not: outside every legal-consistent position).
+   C06_set_fen_canonical: decoding the canonical FEN of any well-formed specification position gives that position. *)
 From Coq Require Import NArith List Bool.
 From LC Require Import Bits Types BitboardModel MoveModel ZobristModel PositionModel FenModel Spec.Rules Spec.Fen
-  Refine.Abs Refine.Board FenFacts FenCodecFacts.
+  Refine.Abs Refine.Board FenFacts FenCodecFacts FenRoundTrip.
 Import ListNotations.
 Local Open Scope N_scope.
 
@@ -23,4 +29,17 @@ Proof. exact printer_shows_placement. Qed.
 Theorem C06_startpos : forall K dfrc, set_fen K startpos_str dfrc = set_fen K startpos_fen false.
 Proof. exact startpos_is_standard. Qed.
 
+Theorem C06_set_fen_decodes : forall K dfrc ranks T C E H F s,
+  length ranks = 8%nat -> Forall rank_ok ranks -> T <> [] -> vis T -> C <> [] -> vis C -> ep_word_ok E ->
+  digits H -> H <> [] -> digits F -> F <> [] ->
+  let fen := join 32 [join 47 ranks; T; C; E; H; F] in
+  of_fen dfrc fen = Some s ->
+  (dfrc = true -> find_king (s_board s) White <> None /\ find_king (s_board s) Black <> None) ->
+  abs (set_fen K fen dfrc) = s /\ wf (set_fen K fen dfrc) = true.
+Proof. exact set_fen_of_fen. Qed.
+Theorem C06_set_fen_canonical : forall K dfrc s, fen_ok dfrc s ->
+  abs (set_fen K (fen_of dfrc s) dfrc) = s /\ wf (set_fen K (fen_of dfrc s) dfrc) = true.
+Proof. exact set_fen_fen_of. Qed.
+
+Print Assumptions C06_set_fen_decodes. Print Assumptions C06_set_fen_canonical.
 Print Assumptions C06_get_fen_encodes. Print Assumptions C06_printer_shows_placement. Print Assumptions C06_startpos.
